@@ -84,3 +84,27 @@ def choice_match(work, V):
     return [{'module': 'ChoiceMatch', 'cfg': 'MC_ChoiceMatch.cfg (index_of as written)', 'distinct_states': bad['distinct'], 'violation': bad['violation'], 'expected_violation': 'ScoreInUnit',
              'pairs_replayed_into_code': len(cases), 'drift': drift},
             {'module': 'ChoiceMatch', 'cfg': 'MC_ChoiceMatch_fixed.cfg', 'distinct_states': good['distinct'], 'violation': good['violation']}]
+
+
+def select_candidates(work, V, n=8):
+    """SelectCandidates.tla: model-check disjointness of the selected number-with-unit candidates for every layout of
+    numbers and units, keep the pre-fix configuration as a regression that must fail, and replay every candidate list
+    into the real _select_candidates."""
+    r = tlc.run(work, 'SelectCandidates', cfg='MC_SelectCandidates.cfg', dump=True, timeout=900)
+    if not r['ok']:
+        V.note('mechanism-drift: SelectCandidates violates %s at design level' % r['violation'])
+    old = tlc.run(work, 'SelectCandidates', cfg='MC_SelectCandidates_prefix.cfg', timeout=600)
+    finals = {}
+    for st in tlc.read_dump(r['dump'], where='phase = "done"'):
+        finals[json.dumps(st['ers'], sort_keys=True)] = [[c['start'], c['length']] for c in st['out']]
+    keys = sorted(finals)
+    cases = [{'api': 'selectcands', 'n': n, 'ers': json.loads(k)} for k in keys]
+    obs = pool.run_cases(cases, init_name='unit', batch=100, timeout=20.0)
+    drift = 0
+    for k, o in zip(keys, obs):
+        if o.get('out') != finals[k]:
+            drift += 1
+            if drift <= 2:
+                V.note('mechanism-drift: _select_candidates(%s): model %s, code %s' % (k, finals[k], o))
+    return [{'module': 'SelectCandidates', 'cfg': 'MC_SelectCandidates.cfg', 'distinct_states': r['distinct'], 'violation': r['violation'], 'lists_replayed_into_code': len(cases), 'drift': drift},
+            {'module': 'SelectCandidates', 'cfg': 'MC_SelectCandidates_prefix.cfg (inclusive ends, before the fix)', 'distinct_states': old['distinct'], 'violation': old['violation'], 'expected_violation': 'Disjoint'}]
